@@ -269,6 +269,10 @@ def drv_pdfs(tier):
         else:
             a1, a2 = rng.uniform(0.05, 1), rng.uniform(1, 40)
             b1, b2 = rng.uniform(0.1, 50), rng.uniform(0.1, 50)
+            if ci % 3 == 1:
+                a2 = a1          # coinciding shapes with different scales (and, below, coinciding scales with different shapes)
+            elif ci % 3 == 2:
+                b2 = b1
             pg = [a1, a2, b1, b2] + ([rng.uniform(-1, 1)] if lay == 5 else [])
         infog = dict(xx=xx.tolist(), yy=yy.tolist(), params=pg)
 
